@@ -58,7 +58,9 @@ func (s *service) Create(ctx context.Context, record kvs.Record) (string, error)
 		return "", ctx.Err()
 	}
 	if r, ok := s.recs[record.Key]; ok {
-		return r.Version, errors.ErrExist
+		if !s.dropIfExpired(r) {
+			return r.Version, errors.ErrExist
+		}
 	}
 	record.Version = ulidutils.NewID()
 	s.recs[record.Key] = record
@@ -151,7 +153,8 @@ func (s *service) Delete(ctx context.Context, key string) error {
 	s.lock.Lock()
 	defer s.lock.Unlock()
 
-	if _, ok := s.recs[key]; !ok {
+	r, ok := s.recs[key]
+	if !ok || s.dropIfExpired(r) {
 		return errors.ErrNotExist
 	}
 	delete(s.recs, key)
@@ -163,7 +166,7 @@ func (s *service) WaitForVersionChange(ctx context.Context, key, ver string) err
 	for {
 		s.lock.Lock()
 		r, ok := s.recs[key]
-		if !ok {
+		if !ok || s.dropIfExpired(r) {
 			s.lock.Unlock()
 			return errors.ErrNotExist
 		}
@@ -208,12 +211,26 @@ func (s *service) ListKeys(ctx context.Context, pattern string) (iterable.Iterat
 		return nil, fmt.Errorf("could not compile the patter %q: %w", pattern, err)
 	}
 	res := []string{}
-	for k := range s.recs {
+	for k, r := range s.recs {
+		if s.dropIfExpired(r) {
+			continue
+		}
 		if g.Match(k) {
 			res = append(res, k)
 		}
 	}
 	return &keysIterator{res: res}, nil
+}
+
+// dropIfExpired removes the record r if its expiration time has passed and reports whether it did so.
+// Must be called with the lock held.
+func (s *service) dropIfExpired(r kvs.Record) bool {
+	if r.ExpiresAt == nil || !r.ExpiresAt.Before(time.Now()) {
+		return false
+	}
+	delete(s.recs, r.Key)
+	s.notifyWaiters(r.Key)
+	return true
 }
 
 func (s *service) notifyWaiters(key string) {
